@@ -415,35 +415,45 @@ Theorem c11_source2_signed : forall p sg, src2_signed (enc_parsed p sg) = PBool 
 Proof. exact src2_signed_is_model. Qed.
 Print Assumptions c11_source2_signed.
 
-(* ==== protocolSupportEnumeration as the document writes it (C11/Tokens.v, round 6).  The enumeration is an xs:list:
-   its ITEMS are separated by XML white space.  [spec_x] is the property with every enumeration read as its items
-   ([canon_hist] re-splits each blank-separated piece at tab / line feed / carriage return); the correspondence
-   evaluates [spec_x] on the implementation's answers.  The code splits the (stripped) value at blanks: it conforms
-   on every history whose pieces hold none of these three characters (literal ones never arrive: the XML parser turns
-   them into blanks) ... *)
-Theorem c11_store_conforms_items : forall now h,
-  clean_hist h = true -> spec_x (rinit now) h (run cur (init now) h).
+(* ==== protocolSupportEnumeration as the document writes it (C11/Tokens.v, round 6; follows 9be4974e).  The
+   enumeration is an xs:list: its ITEMS are separated by XML white space.  A role record holds the pieces
+   value.strip().split(" ") and stands for that value; [canon_hist] replaces them by the value's items (str.split() as
+   the translator models it: ASCII white space, no empty fields).  [spec_x] is the property on the items, evaluated by
+   the correspondence on the implementation's answers; [run_now] is the model of the code now (split(), then the
+   token-list model), [run_v0] the code before 9be4974e (the pieces).  No guard: *)
+Theorem c11_store_conforms_items : forall now h, spec_x (rinit now) h (run_now now h).
 Proof. exact store_conforms_items. Qed.
 Print Assumptions c11_store_conforms_items.
 
-(* ... and not on all: finding C11-F9 (items separated by &#10;: the SAML 2.0 role is not served) *)
-Theorem c11_items_refuted : exists now h, ~ spec_x (rinit now) h (run cur (init now) h).
-Proof. exact tokens_refuted. Qed.
-Print Assumptions c11_items_refuted.
+(* finding C11-F9 (fixed): items separated by &#10; - the old code did not serve the SAML 2.0 role *)
+Theorem c11_items_v0_refuted : exists now h, ~ spec_x (rinit now) h (run_v0 now h).
+Proof. exact items_v0_refuted. Qed.
+Print Assumptions c11_items_v0_refuted.
 
-(* the guard excludes nothing else: on a clean history the items ARE the pieces *)
+(* ... and was right wherever the pieces are items already (not empty, no white space inside) *)
+Theorem c11_items_v0_clean : forall now h, clean_hist h = true -> spec_x (rinit now) h (run_v0 now h).
+Proof. exact store_conforms_items_v0_clean. Qed.
+Print Assumptions c11_items_v0_clean.
+
+(* on such a history the items ARE the pieces *)
 Theorem c11_items_clean_same : forall h, clean_hist h = true -> canon_hist h = h.
 Proof. exact canon_hist_clean. Qed.
 Print Assumptions c11_items_clean_same.
 
-(* what "supports SAML 2.0" means on items: some piece, split at tab / LF / CR, holds the name itself *)
+(* what "supports SAML 2.0" means now: the name is one of the items of the value *)
 Theorem c11_items_supports : forall r,
-  supports_saml2 (canon_role r) = existsb (fun p => mem NS_SAML2P (split_ws3 p)) (r_protos r).
+  supports_saml2 (canon_role r) = mem NS_SAML2P (items (join " " (r_protos r))).
 Proof. exact canon_supports. Qed.
 Print Assumptions c11_items_supports.
 
-(* the roles of the correspondence cases (Tokens.rp: the attribute value, stripped and split at blanks by Coq) are in
-   the domain of the source tie c11_source2_do_entity_descriptor (Source2.protos_wf) *)
-Theorem c11_case_role_wf : forall kind pse svcs keys acs, protos_wf (rp kind pse svcs keys acs).
-Proof. intros. apply protos_wf_iff. eexists. apply rp_protos. Qed.
+(* str.split() of a value that is the blank-joined split of anything gives that split back (idempotence) ... *)
+Theorem c11_items_idem : forall s, items (join " " (items s)) = items s.
+Proof. exact items_idem. Qed.
+Print Assumptions c11_items_idem.
+
+(* ... so every re-split role (what the model of the code now works on) is in the domain of the source tie
+   c11_source2_do_entity_descriptor (Source2.protos_wf), provided its value is ASCII *)
+Theorem c11_case_role_wf : forall r,
+  all_ascii (join " " (r_protos (canon_role r))) = true -> protos_wf (canon_role r).
+Proof. intros r H. split; [exact H|]. unfold canon_role. cbn [r_protos]. apply items_idem. Qed.
 Print Assumptions c11_case_role_wf.
